@@ -3,9 +3,9 @@
 package referenceclient
 
 import (
-	"encoding/base64"
 	"bytes"
 	"compress/gzip"
+	"encoding/base64"
 	"encoding/binary"
 	"fmt"
 	"io"
